@@ -24,7 +24,9 @@ BicPosOK(c, i, strict) ==
 
 BicDefectsClean(s, strict) ==
     (IF Len(s) \notin {8, 11} THEN {"InvalidLength"} ELSE {})
-    \cup (IF \E i \in 1..Len(s) : (i > 11 /\ ~IsAlnum(s[i])) \/ (i <= 11 /\ ~BicPosOK(s[i], i, strict))
+    \* (a text that is not 8 or 11 long does not have the ISO 9362 structure either)
+    \cup (IF \/ \E i \in 1..Len(s) : (i > 11 /\ ~IsAlnum(s[i])) \/ (i <= 11 /\ ~BicPosOK(s[i], i, strict))
+             \/ Len(s) \notin {8, 11}
           THEN {"InvalidStructure"} ELSE {})
     \cup (IF Len(s) < 6 \/ <<s[5], s[6]>> \notin Iso3166 THEN {"InvalidCountryCode"} ELSE {})
 
